@@ -38,12 +38,25 @@ def mtree(t, sub):
         return ('call',) + tuple(mtree(a, sub) for a in t[1])
     if k == 'list':
         return ('list',) + tuple(mtree(a, sub) for a in t[1])
+    if k == 'map':
+        return ('map',) + tuple(mtree(a, sub) for a in t[1])
+    if k == 'empty':
+        return ('empty',)
+    if k == 'nv':
+        return ('nv', mtree(t[1], sub), mtree(t[2], sub))
     raise ValueError(k)
 
 
 def rtree(e, atoms):
     """real expression -> same projection. atoms: reverse map concrete atom text -> model atom"""
     from yaql.language import expressions as ex
+    from yaql.language import utils as yutils
+    if e is yutils.NO_VALUE:
+        return ('empty',)
+    if isinstance(e, ex.MappingRuleExpression):
+        return ('nv', rtree(e.source, atoms), rtree(e.destination, atoms))
+    if isinstance(e, ex.MapExpression):
+        return ('map',) + tuple(rtree(a, atoms) for a in e.args)
     if isinstance(e, ex.Wrap):
         return rtree(e.expr, atoms)
     if isinstance(e, ex.BinaryOperator):
@@ -91,12 +104,12 @@ def concretise(toks, rng, substitute):
             out.append(c)
         elif t == 'f(':
             out.append('foo(')
-        elif t in '()[],':
+        elif t in ('(', ')', '[', ']', ',', '{', '}'):
             out.append(t)
         else:
             # operator symbol: binary if preceded by an operand end, else unary
             prev = toks[i - 1] if i else None
-            binary = prev is not None and (prev in ATOM or prev in (')', ']') or prev in ('!',) or (prev == '~' and False))
+            binary = prev is not None and (prev in ATOM or prev in (')', ']', '}') or prev in ('!',) or (prev == '~' and False))
             role = 'b' if binary else 'u'
             c = t
             if substitute and binary:
@@ -109,7 +122,7 @@ def concretise(toks, rng, substitute):
     for i, c in enumerate(out):
         if i:
             p = out[i - 1]
-            tight = (p in ('(', '[') or c in (')', ']', ',') or p.endswith('(')) and rng.random() < 0.5
+            tight = (p in ('(', '[', '{') or c in (')', ']', ',', '}') or p.endswith('(')) and rng.random() < 0.5
             if not tight:
                 txt += rng.choice(WS)
         txt += c
@@ -255,6 +268,35 @@ def replay_states(rep, dump, base, calls_list, engines, rng, label, nsub=1, keep
     return n
 
 
+def replay_args(rep, dump, base, engines, rng, label):
+    """argument-list mode: the model's verdict (accepted with this tree / rejected) against the real parser for every sequence"""
+    from yaql.language import exceptions as exc
+    kind, eng = engines.get(base, ())
+    n = acc = 0
+    for st in tlaval.parse_dump(dump):
+        toks = [str(t) for t in st['toks']]
+        out = st['out']
+        text, sub, atoms = concretise(toks, rng, substitute=False)
+        want = mtree(out['t'], sub) if out['ok'] else ('rejected',)
+        try:
+            got = rtree(eng(text).expression, atoms)
+        except exc.YaqlGrammarException:
+            got = ('rejected',)
+        except Exception as e:  # noqa
+            got = ('raises', type(e).__name__, str(e)[:80])
+        n += 1
+        acc += 1 if out['ok'] else 0
+        rep.evaluations += 1
+        if got != want:
+            rep.violation('C02/%s/arguments' % label, '%r under the %s table: real %r, the grammar of argument lists dictates %r' % (text, base, got, want),
+                          {'base': base, 'calls': (), 'text': text})
+        if n % 4001 == 1:
+            rep.sample({'table': base, 'tokens': ' '.join(toks), 'verdict': repr(want)[:200]})
+    rep.traces += n
+    rep.nontrivial += acc
+    return n, acc
+
+
 def run(rep, tier, seed, keep=False):
     quick = tier == 'quick'
     wd = tlc.workdir('c02')
@@ -283,6 +325,18 @@ def run(rep, tier, seed, keep=False):
                       ['atom', 'par'] if quick else kinds)
         rep.tlc('Grammar/G+M legacy table', r)
         n2 = replay_states(rep, dump, 'legacy', [()], engines, rng, 'legacy', nsub=1)
+        # argument lists: omitted positional arguments, named arguments, in calls / method calls / index / list / map forms
+        r, dump = gen(wd, 'args', 'standard', [()], ['+'] if quick else ['+', '->'], ['-'], [], 4 if quick else 5, 0, ['atom'], mode='args')
+        rep.tlc('Grammar/G+M argument lists, standard table', r)
+        na, nacc = replay_args(rep, dump, 'standard', engines, rng, 'standard')
+        r, dump = gen(wd, 'argsl', 'legacy', [()], ['+', '=>'], [], [], 3 if quick else 4, 0, ['atom'], mode='args')
+        rep.tlc('Grammar/G+M argument lists, legacy table', r)
+        nl, nlacc = replay_args(rep, dump, 'legacy', engines, rng, 'legacy')
+        # every token sequence of length <= 3 over the whole token alphabet: accepted with the model's tree, or rejected
+        r, dump = gen(wd, 'soup', 'standard', [()], [], [], [], 3, 0, ['atom'], mode='soup')
+        rep.tlc('Grammar/G+M all token sequences <= 3, standard table', r)
+        ns, nsacc = replay_args(rep, dump, 'standard', engines, rng, 'standard-soup')
+        rep.extra['argument_lists'] = {'standard': na, 'standard_accepted': nacc, 'legacy': nl, 'legacy_accepted': nlacc, 'soup': ns, 'soup_accepted': nsacc}
         # customised tables
         calls_list = insert_calls(tier, rng)
         r, dump = gen(wd, 'cust', 'standard', calls_list, ['*', '+', 'or', '->', '**', '~'], ['-', 'not', '~'], ['!', '~'], 2, 1,
